@@ -44,7 +44,12 @@ class _Ref:
         return self._sys.create(actor_class, parent=self._name, requirements=targetActorRequirements)
 
     def notifyOnSystemRegistrationChanges(self, addr, enable):
+        was = bool(self._sys.registration_listeners.get(self._name))
         self._sys.registration_listeners[self._name] = enable
+        # optional (C12): the harness plays the convention notifier; hook(name, enable, was_enabled) may enqueue the
+        # ActorSystemConventionUpdate messages thespian sends for the current convention members
+        if self._sys.registration_hook is not None:
+            self._sys.registration_hook(self._name, enable, was)
 
     def handleDeadLetters(self, addr, enable):
         pass
@@ -77,8 +82,9 @@ class SimActorSystem:
         self.class_map = class_map or {}  # real class -> substitute class (stubs)
         self.namer = namer
         self.registration_listeners = {}
+        self.registration_hook = None
         self.dead_letters = []
-        self.trace_hook = None  # called as hook(kind, info) after every step
+        self.send_hook = None  # called as hook(src, dst, msg) for every message sent
         self.handler_errors = []  # (actor, msg type, traceback) for handlers that raised
         self._counter = collections.Counter()
 
@@ -138,6 +144,8 @@ class SimActorSystem:
     # ---- messaging
     def send(self, src, target, msg):
         dst = self.name_of(target)
+        if self.send_hook is not None:
+            self.send_hook(src, dst, msg)
         if dst in self.endpoints:
             self.endpoints[dst].inbox.append((src, msg))
             return
